@@ -56,6 +56,8 @@ def denial(inner, with_ext=True, closes=None):
             t = m.get("type", "")
             if t.startswith("websocket.http.response."):
                 m = dict(m, type="http.response." + t.rsplit(".", 1)[1])
+            elif t.startswith("http."):
+                m = dict(m, type="not-a-websocket-event:" + t)      # an http event on a websocket scope is not what the extension defines
             elif t == "websocket.close" and closes is not None:
                 closes.append(dict(m))
                 return
